@@ -1,8 +1,13 @@
 (* Extraction of the C04 model: ExtrOcamlBasic only, no Extract Constant.  The carrier is abstract
    (Section variables of C04Model.v became ordinary function arguments); the driver passes OCaml floats. *)
 Require Import ExtrOcamlBasic.
-From SharkV Require Import C04Model.
+From SharkV Require Import C04Model C04Conv C04Pool C04Het.
 Extraction "c04_model.ml" ew_act id_act normalizer_act softmax_act
   lin_eval lin_eval_batch lin_params lin_nparams lin_set lin_wpd lin_wid lin_wd
   net_eval net_eval_batch net_params net_nparams net_set net_back
-  norm_eval norm_eval_batch norm_params norm_set classifier_eval classifier_eval_batch.
+  norm_eval norm_eval_batch norm_params norm_set classifier_eval classifier_eval_batch
+  conv_nparams conv_set conv_params conv_eval conv_eval_batch conv_wpd conv_wid conv_wd
+  pool_nout pool_eval pool_eval_batch pool_wid pool_amax resize_nout resize_eval resize_eval_batch resize_wid
+  conv_pre_batch lin_pre_batch
+  hnet_np hnet_params hnet_set hnet_features hnet_eval hnet_eval1 hnet_wid hnet_wd hnet_wpd
+  neu_eval neu_eval1 neu_wid lin_kind neu_kind conv_kind pool_kind resize_kind norm_kind.
